@@ -2,7 +2,7 @@
    Statements only (copied from the lemma libraries); every proof is a bare
    `exact`; see the cited files in coq/proofs for the proofs. *)
 From Coq Require Import List NArith ZArith Bool Arith Sorting.Sorted Sorting.Permutation.
-From D2P Require Import Str Err Xml Fmt Bullets Merge Collector Walk Paths BulletsFacts SerialFacts PathsFacts.
+From D2P Require Import Str Err Xml Fmt Bullets Merge Collector Walk Paths BulletsFacts SerialFacts PathsFacts Package MiscFacts.
 Import ListNotations.
 
 (* the whole extraction of a part (merge, then walk) is EQUAL for a document and for the same document with every namespace URI renamed consistently and injectively - transitional vs strict (ISO) URIs are an instance *)
@@ -53,3 +53,35 @@ Theorem C18_relationship_type :
   forall pre x, seg x -> path_name (pre ++ slash :: x) = x.
 Proof. exact path_name_url. Qed.
 Print Assumptions C18_relationship_type.
+
+(* reading a member does not depend on the order of the archive's members (distinct names) *)
+Theorem C18_member_order :
+  forall a a' name,
+  Permutation a a' -> NoDup (map fst a) -> zread a' name = zread a name.
+Proof. exact zread_perm. Qed.
+Print Assumptions C18_member_order.
+
+(* nor on unrelated extra members *)
+Theorem C18_unrelated_members :
+  forall a name n m, n <> name ->
+  zread (a ++ [(n, m)]) name = zread a name /\ zread ((n, m) :: a) name = zread a name.
+Proof. exact zread_extra. Qed.
+Print Assumptions C18_unrelated_members.
+
+(* the parts of a type come out in path order whatever the order of relationships and of relationship files *)
+Theorem C18_relationship_order :
+  forall fs fs' ty,
+  Permutation fs fs' ->
+  NoDup (map f_path (filter (fun f => mem_str (f_type f) [ty]) fs)) ->
+  files_of_type fs' ty = files_of_type fs ty.
+Proof. exact files_of_type_perm. Qed.
+Print Assumptions C18_relationship_order.
+
+(* relationships of other types do not matter *)
+Theorem C18_unrelated_relationships :
+  forall fs f ty,
+  mem_str (f_type f) [ty] = false ->
+  files_of_type (f :: fs) ty = files_of_type fs ty /\
+  files_of_type (fs ++ [f]) ty = files_of_type fs ty.
+Proof. exact files_of_type_unrelated. Qed.
+Print Assumptions C18_unrelated_relationships.
